@@ -61,6 +61,33 @@ CHECKS['C18'] = dict(
     note=NOTE_COMMON + "Partial: CPython GIL/bytecode atomicity not modelled; read-onlyness of the real objects is monitored, not proved.",
     technique="Lean 4 proof (schedule induction) + write monitoring + threaded differential check",
     ref="DESIGN.md §4 C18")
+CHECKS['C03'] = dict(
+    text="Lean theorems der_refines (the code model Der equals the specification encoder X690.derEncode written from X.690 clauses 8/10/11, for all types/values outside named deviation predicates), "
+         "der_canonical (equal abstract values give identical octets), der_tlv_shape (one definite TLV with minimal length octets) and der_roundtrip; implementation bytes are compared with S and M on every generated case; "
+         "SET / SET OF ordering (outside the Lean universe) is compared with an independent DER encoder in the harness, including re-ordered presentations of equal values.",
+    note=NOTE_COMMON + "Partial: SET, SET OF, REAL, time types, named bits are checked against the harness encoder only (no Lean model).",
+    technique="Lean 4 proof (M = S refinement, canonicity, TLV shape) + byte-exact differential check",
+    ref="DESIGN.md §4 C03")
+CHECKS['C04'] = dict(
+    text="Lean theorem complete: every byte string accepted by the spec-level reference decoder X690.berDecodeRef (any definite length form incl. padded, indefinite length + EOC on any constructed node, "
+         "arbitrarily nested constructed strings) is decoded by the BER code model to the same value, outside the named deviation predicate; encoder_in_spec: encoder outputs are in that relation. "
+         "Every variant produced by the independent TLV rewriter is certified by the reference decoder before it is given to the real decoder.",
+    note=NOTE_COMMON + "Partial: SET permutation is not in the Lean universe (no SET); content octets of primitives are as the DER encoder writes them.",
+    technique="Lean 4 proof (completeness w.r.t. a reference decoder) + model-certified metamorphic variants",
+    ref="DESIGN.md §4 C04")
+CHECKS['C06'] = dict(
+    text="Lean theorems oer_refines (code model Oer = specification encoder X696 written from X.696, for all types/values with an empty deviation list) and decoder_exact (the decoder model returns the value from the standard's octets); "
+         "implementation bytes vs S and M on every generated case, S's octets fed to the real decoder; worked examples of the standard kernel-evaluated.",
+    note=NOTE_COMMON + "S is my (agent-written) reading of X.696; deviations that are allowed encoder options are reported as findings of non-canonical output.",
+    technique="Lean 4 proof (M = S refinement + decoder exactness) + byte-exact differential check",
+    ref="DESIGN.md §4 C06")
+CHECKS['C07'] = dict(
+    category='exploration',
+    text="Random legal extension steps (new additions, alternatives, enumeration items, extension ranges; any depth) turn a generated V1 into V2; all V2 values are decoded under V1 and compared with the projection, "
+         "all V1 values under V2, for 7 codecs; for the five modelled codecs the Lean decoder model for V1 is run on the same V2 bytes and must agree. No general Lean theorem over the Extends relation yet.",
+    note="No proof yet for this property (exploration + model correspondence only); the Lean models of the decoders are exercised on V2 bytes under V1.",
+    technique="differential exploration against the Lean decoder models (proof of forward/backward compatibility pending)",
+    ref="DESIGN.md §4 C07")
 NOT_APPLICABLE = []
 
 def main():
